@@ -63,17 +63,17 @@ package config
 //@ spec igHasCol(ig *Integration, name string) bool = exists j int :: 0 <= j && j < len((*ig).Table.Columns) && colAt(ig, j).Name == name
 //@ spec igHasBD(ig *Integration, name string) bool = exists j int :: 0 <= j && j < len((*ig).Block) && bdAt(ig, j).Name == name
 
-//@ func (*Integration).AddRequiredFields$1 props=C16,C04,C02,C03
+//@ func (*Integration).AddRequiredFields$1 props=C16,C04,C02,C03,C14
 //@   requires ig != nil
 //@   ensures [found] result ==> (exists j int witness rangeindex :: 0 <= j && j < len((*ig).Block) && (*ig).Block[j].Name == name)
 //@   ensures [absent] !result ==> (forall j int :: 0 <= j && j < len((*ig).Block) ==> (*ig).Block[j].Name != name)
 //@   loop#0 invariant forall j int :: 0 <= j && j <= rangeindex ==> (*ig).Block[j].Name != name
-//@ func (*Integration).AddRequiredFields$2 props=C16,C04,C02,C03
+//@ func (*Integration).AddRequiredFields$2 props=C16,C04,C02,C03,C14
 //@   requires ig != nil
 //@   ensures [found] result ==> (exists j int witness rangeindex :: 0 <= j && j < len((*ig).Table.Columns) && (*ig).Table.Columns[j].Name == name)
 //@   ensures [absent] !result ==> (forall j int :: 0 <= j && j < len((*ig).Table.Columns) ==> (*ig).Table.Columns[j].Name != name)
 //@   loop#0 invariant forall j int :: 0 <= j && j <= rangeindex ==> (*ig).Table.Columns[j].Name != name
-//@ func (*Integration).AddRequiredFields$3 props=C16,C04,C02,C03
+//@ func (*Integration).AddRequiredFields$3 props=C16,C04,C02,C03,C14
 //@   requires ig != nil
 //@   ensures [col] exists j int witness len((*ig).Table.Columns) - 1, _ :: 0 <= j && j < len((*ig).Table.Columns) && colAt(ig, j).Name == name
 //@   ensures [bd] exists j int witness len((*ig).Block) - 1, _ :: 0 <= j && j < len((*ig).Block) && bdAt(ig, j).Name == name
@@ -85,7 +85,7 @@ package config
 // "trace_" (the loop reads the elements through the slice taken before the
 // loop while add may reallocate it; the frame needed for that is not
 // expressible in the contract language) - covered by the bounded stand-in.
-//@ func (*Integration).AddRequiredFields props=C16,C04,C02,C03
+//@ func (*Integration).AddRequiredFields props=C16,C04,C02,C03,C14
 //@   requires ig != nil
 //@   ensures [identity] igHasCol(ig, "ig_name") && igHasCol(ig, "src_name") && igHasCol(ig, "block_num") && igHasCol(ig, "tx_idx")
 //@   ensures [identity-filled] igHasBD(ig, "ig_name") && igHasBD(ig, "src_name") && igHasBD(ig, "block_num") && igHasBD(ig, "tx_idx")
@@ -108,10 +108,29 @@ package config
 
 // C16: a configuration is accepted only if every selected input, every block
 // field and every notification column has a table column.
-//@ func ValidateColRefs props=C16
+//@ func ValidateColRefs props=C16,C11
+//@   requires len(ig.Event.Inputs) == 0 || alloc(ig.Event.Inputs)
+//@   ensures [input-names-distinct] result == nil ==> (forall i int, j int :: 0 <= i && i < j && j < len(ig.Event.Inputs) ==> ig.Event.Inputs[i].Name != ig.Event.Inputs[j].Name)
+//@   ensures [column-names-distinct] result == nil ==> (forall i int, j int :: 0 <= i && i < j && j < len(ig.Table.Columns) ==> ig.Table.Columns[i].Name != ig.Table.Columns[j].Name)
+//@   ensures [block-field-names-distinct] result == nil ==> (forall i int, j int :: 0 <= i && i < j && j < len(ig.Block) ==> ig.Block[i].Name != ig.Block[j].Name)
+//@   loop#0 invariant forall i int :: 0 <= i && i <= rangeindex ==> has(ucols, ig.Table.Columns[i].Name)
+//@   loop#0 invariant forall i int, j int :: 0 <= i && i < j && j <= rangeindex ==> ig.Table.Columns[i].Name != ig.Table.Columns[j].Name
+//@   loop#0 invariant forall x string :: !has(uinputs, x) && !has(ubd, x)
+//@   loop#0 invariant forall x string :: has(ucols, x) ==> (exists i int witness rangeindex :: 0 <= i && i <= rangeindex && ig.Table.Columns[i].Name == x)
+//@   loop#1 invariant forall i int, j int :: 0 <= i && i < j && j < len(ig.Table.Columns) ==> ig.Table.Columns[i].Name != ig.Table.Columns[j].Name
+//@   loop#1 invariant forall i int :: 0 <= i && i <= rangeindex ==> has(uinputs, ig.Event.Inputs[i].Name)
+//@   loop#1 invariant forall i int, j int :: 0 <= i && i < j && j <= rangeindex ==> ig.Event.Inputs[i].Name != ig.Event.Inputs[j].Name
+//@   loop#1 invariant forall x string :: !has(ubd, x)
+//@   loop#1 invariant forall x string :: has(uinputs, x) ==> (exists i int witness rangeindex :: 0 <= i && i <= rangeindex && ig.Event.Inputs[i].Name == x)
+//@   loop#2 invariant forall i int, j int :: 0 <= i && i < j && j < len(ig.Table.Columns) ==> ig.Table.Columns[i].Name != ig.Table.Columns[j].Name
+//@   loop#2 invariant forall i int, j int :: 0 <= i && i < j && j < len(ig.Event.Inputs) ==> ig.Event.Inputs[i].Name != ig.Event.Inputs[j].Name
+//@   loop#2 invariant forall i int :: 0 <= i && i <= rangeindex ==> has(ubd, ig.Block[i].Name)
+//@   loop#2 invariant forall i int, j int :: 0 <= i && i < j && j <= rangeindex ==> ig.Block[i].Name != ig.Block[j].Name
+//@   loop#2 invariant forall x string :: has(ubd, x) ==> (exists i int witness rangeindex :: 0 <= i && i <= rangeindex && ig.Block[i].Name == x)
 //@   ensures [selected-inputs-have-columns] result == nil ==> (forall k int :: 0 <= k && k < len(callresult(Selected, 0)) ==> (exists c int :: 0 <= c && c < len(ig.Table.Columns) && ig.Table.Columns[c].Name == callresult(Selected, 0)[k].Column))
 //@   ensures [block-fields-have-columns] result == nil ==> (forall k int :: 0 <= k && k < len(ig.Block) ==> len(ig.Block[k].Column) > 0 && (exists c int :: 0 <= c && c < len(ig.Table.Columns) && ig.Table.Columns[c].Name == ig.Block[k].Column))
 //@   ensures [notification-columns-exist] result == nil ==> (forall k int :: 0 <= k && k < len(ig.Notification.Columns) ==> (exists c int :: 0 <= c && c < len(ig.Table.Columns) && ig.Table.Columns[c].Name == ig.Notification.Columns[k]))
+//@   loop#3 invariant forall i int, j int :: 0 <= i && i < j && j < len(ig.Event.Inputs) ==> ig.Event.Inputs[i].Name != ig.Event.Inputs[j].Name
 //@   loop#3 invariant forall k int :: 0 <= k && k <= rangeindex ==> (exists c int witness rangeindex_4 + 1 :: 0 <= c && c < len(ig.Table.Columns) && ig.Table.Columns[c].Name == callresult(Selected, 0)[k].Column)
 //@   loop#5 invariant forall k int :: 0 <= k && k <= rangeindex ==> len(ig.Block[k].Column) > 0 && (exists c int witness rangeindex_6 + 1 :: 0 <= c && c < len(ig.Table.Columns) && ig.Table.Columns[c].Name == ig.Block[k].Column)
 //@   loop#7 invariant forall k int :: 0 <= k && k <= rangeindex ==> (exists c int witness rangeindex_8 + 1 :: 0 <= c && c < len(ig.Table.Columns) && ig.Table.Columns[c].Name == ig.Notification.Columns[k])
